@@ -10,9 +10,10 @@ from harness.props import tuner_common as T
 def campaign(rep, pid, tier, seed, failures=False, checkpoints=False):
     flags = set(M.PROP_FLAGS[pid])
     n = 10 if tier == "quick" else 120
+    n_gp = 6 if tier == "quick" else 30          # model-based searchers (slower): fewer runs
     traces, meta = [], []
-    for ki, kind in enumerate(R.KINDS):
-        for j in range(n):
+    for ki, kind in enumerate(R.KINDS + R.GP_KINDS):
+        for j in range(n if kind in R.KINDS else n_gp):
             s = seed * 100003 + ki * 1009 + j
             nw = 1 + (j % 4)
             p_fail = (0.05 if j % 3 == 0 else 0.0) if (failures or j % 5 == 0) else 0.0
@@ -26,7 +27,7 @@ def campaign(rep, pid, tier, seed, failures=False, checkpoints=False):
             meta.append({"scheduler": kind, "seed": s, "n_workers": nw, "p_fail": p_fail, "p_ext": p_ext, "delete_checkpoints": delete})
     counts = T.validate_traces(rep, traces, meta, pid, flags, "real-schedulers")
     rep.replays += len(traces)
-    rep.extra.setdefault("real_scheduler_runs", {})["kinds"] = R.KINDS
+    rep.extra.setdefault("real_scheduler_runs", {})["kinds"] = R.KINDS + R.GP_KINDS
     rep.extra["real_scheduler_runs"]["runs"] = len(traces)
     rep.extra["real_scheduler_runs"]["flags_seen"] = counts
     return counts
